@@ -8,6 +8,6 @@ s=$(mktemp -d /tmp/cjseedfull_XXXXXX)
 mkdir $s/src && cp /repo/cJSON.c /repo/cJSON.h /repo/cJSON_Utils.c /repo/cJSON_Utils.h $s/src/
 (cd $s/src && git apply --include='cJSON*' $d/patch.diff) || { echo "patch does not apply"; rm -rf $s; exit 2; }
 cp -a /verif/coq $s/coq; cp -a /verif/ocaml $s/ocaml
-cd /verif && VERIF_REPO=$s/src VERIF_COQ_DIR=$s/coq VERIF_OCAML_DIR=$s/ocaml VERIF_EVIDENCE_DIR=$s/evidence python3 tools/check.py $2 --tier ${3:-quick}; rc=$?
+cd /verif && VERIF_REPO=$s/src VERIF_COQ_DIR=$s/coq VERIF_OCAML_DIR=$s/ocaml VERIF_EVIDENCE_DIR=$s/evidence VERIF_REPLAY_DIR=$s/replays python3 tools/check.py $2 --tier ${3:-quick}; rc=$?
 rm -rf $s
 echo "seed=$1 property=$2 exit=$rc"
